@@ -31,7 +31,7 @@ def flipBit (bs : Bytes) (bit : Nat) : Bytes :=
 
 def SENT : UInt8 := 0xA5
 
-def doPull (objApi : Bool) (h : H) (ct ad : Bytes) (advanceNext : Bool) : H :=
+def doPull (objApi : Bool) (h : H) (ct ad : Bytes) (advanceNext : Bool) (short : Nat := 0) : H :=
   if objApi then
     let (r, t') := objPull prims h.t ct ad
     match r with
@@ -40,7 +40,8 @@ def doPull (objApi : Bool) (h : H) (ct ad : Bytes) (advanceNext : Bool) : H :=
     | .err => { h with t := t', out := "err" :: h.out }
     | .panic => { h with out := "panic" :: h.out, dead := true }
   else
-    let buf := List.replicate (ct.length - 17) SENT
+    -- `short` > 0: the caller's message buffer is that many bytes too small (token `Ds`)
+    let buf := List.replicate (ct.length - 17 - short) SENT
     let r := pull prims h.t buf 0xEE ct ad
     match r.res with
     | .ok n => { h with t := r.st, next := if advanceNext then h.next + 1 else h.next,
@@ -65,6 +66,11 @@ def step (objPushApi objApi : Bool) (h : H) (tok : String) : H :=
     if h.next < h.cts.size then
       let (c, ad) := h.cts[h.next]!
       doPull objApi h c ad true
+    else { h with out := "none" :: h.out }
+  | ["Ds", k] =>
+    if h.next < h.cts.size then
+      let (c, ad) := h.cts[h.next]!
+      doPull objApi h c ad true (if objApi then 0 else max 1 (k.toNat?.getD 1))
     else { h with out := "none" :: h.out }
   | ["Wi", idx, ad] =>
     if h.cts.size = 0 then { h with out := "none" :: h.out } else
